@@ -1,4 +1,5 @@
 import FrappyModel.Node.Dispatch
+import FrappyModel.Datatypes.Import
 /-
 C04 — No invalid, forbidden or out-of-limit request ever reaches the driver.
 
@@ -185,6 +186,40 @@ def exchangeOKB [DecidableEq J] [DecidableEq V] (vd : Verdict V) (o : Obs J V) :
 /-- the observation the model produces -/
 def obsOf (n : Node J V) (o : Outcome J V) : Obs J V := ⟨o.reply, o.calls, o.emits, cache n, cache o.node⟩
 
+
+/-! ## the datatype oracle against the datatype model (C01)
+
+For a parameter whose datatype is one of the ten SECoP kinds the value the dispatcher must hand on is not taken on
+trust from `datatypes.py`: the monitor recomputes `acceptWire dt j (some cur)` with the C01 model (import + validate
+with the cached value as `previous`: a partial struct merged into the current value, a longer array NOT cut down to
+the cached length) and demands that the implementation's datatype answered the same — same value, representation
+included, or the same bad-value class.  Together with `ExchangeOK` (driver call = that answer) the driver call is
+judged against the value computed HERE. -/
+
+section c01
+variable {F : Type} [FloatOps F]
+
+def sameErr : Frappy.Err → Frappy.Err → Bool
+  | .range, .range => true
+  | .wrongType, .wrongType => true
+  | .other _, .other _ => true
+  | _, _ => false
+
+/-- one row of the accept oracle (what the real datatype answered) agrees with the datatype model -/
+def acceptFaithfulB (dt : DType F) (j : JVal F) (prev : Option (PVal F)) (impl : Except Frappy.Err (PVal F)) : Bool :=
+  match Frappy.Datatypes.acceptWire dt j prev, impl with
+  | .ok a, .ok b => PVal.same a b
+  | .error e, .error e' => sameErr e e'
+  | _, _ => false
+
+/-- the parameter oracle built from the datatype model: with it the C04 theorems speak about `acceptWire` itself -/
+def c01Accept (dt : DType F) (cls : Frappy.Err → Frappy.Node.Err) (j : JVal F) (prev : Option (PVal F)) :
+    Except Frappy.Node.Err (PVal F) :=
+  match Frappy.Datatypes.acceptWire dt j prev with
+  | .ok v => .ok v
+  | .error e => .error (cls e)
+
+end c01
 
 /-! ## histories -/
 
